@@ -10,6 +10,7 @@ package controllers
 // (that is what the controller-runtime client does with the server's response); a failing write
 // leaves store and object alone. Whether the write issued against revision rv fails is the
 // uninterpreted oracle statusPatchFails(rv): every fault schedule is covered, no enumeration.
+//@ import bri "github.com/NVIDIA/KAI-scheduler/pkg/scheduler/api/bindrequest_info"
 //@ declare storedPhase(rv string) string
 //@ declare storedAttempts(rv string) int
 //@ declare nextRV(rv string) string
@@ -58,8 +59,18 @@ package controllers
 //@   requires synced(bindRequest)     // the object was read from the store (Reconcile: Client.Get)
 //@   requires bindRequest.Status.FailedAttempts >= 0
 //@   modifies bindRequest.Status.Phase, bindRequest.Status.Reason, bindRequest.Status.FailedAttempts, bindRequest.ResourceVersion
-//@   ensures [finding-status-patch-skipped] err != nil && bindRequest.Spec.BackoffLimit != nil && *bindRequest.Spec.BackoffLimit > old(bindRequest.Status.FailedAttempts) ==> statusPatchFails(old(bindRequest.ResourceVersion)) || storedAttempts(bindRequest.ResourceVersion) == old(bindRequest.Status.FailedAttempts) + 1
-//@   ensures [finding-status-patch-skipped-error-swallowed] err != nil ==> result1 == err
+//@   ensures [retry-counter-persisted] err != nil && bindRequest.Spec.BackoffLimit != nil && *bindRequest.Spec.BackoffLimit > old(bindRequest.Status.FailedAttempts) ==> statusPatchFails(old(bindRequest.ResourceVersion)) || storedAttempts(bindRequest.ResourceVersion) == old(bindRequest.Status.FailedAttempts) + 1
+// the error is handed back to controller-runtime (=> requeue) exactly when this call had a status change to
+// persist; a request whose stored status already says Failed with no retry left returns nil: it is terminal and
+// must not be retried ("at most BackoffLimit times").
+//@   ensures [error-returned-when-status-changed] err != nil && (old(bindRequest.Status.Phase) != "Failed" || (bindRequest.Spec.BackoffLimit != nil && *bindRequest.Spec.BackoffLimit > old(bindRequest.Status.FailedAttempts))) ==> result1 == err
+//@   ensures [terminal-failure-not-retried] err != nil && old(bindRequest.Status.Phase) == "Failed" && !(bindRequest.Spec.BackoffLimit != nil && *bindRequest.Spec.BackoffLimit > old(bindRequest.Status.FailedAttempts)) ==> result1 == nil && result0.RequeueAfter == old(result.RequeueAfter)
+// step lemma of "atMostLimitRetries": the failing attempt that reaches the limit (or any failing attempt without a
+// limit) leaves an object for which the scheduler's IsFailed() holds, in memory and (unless the write failed) in the store.
+//@   ensures [limit-reached-is-failed] err != nil && (bindRequest.Spec.BackoffLimit == nil || old(bindRequest.Status.FailedAttempts) + 1 >= *bindRequest.Spec.BackoffLimit) ==> bri.brFailed(bindRequest)
+//@   ensures [limit-reached-is-failed-in-store] err != nil && (bindRequest.Spec.BackoffLimit == nil || old(bindRequest.Status.FailedAttempts) + 1 >= *bindRequest.Spec.BackoffLimit) ==> statusPatchFails(old(bindRequest.ResourceVersion)) || (storedPhase(bindRequest.ResourceVersion) == "Failed" && (bindRequest.Spec.BackoffLimit == nil || storedAttempts(bindRequest.ResourceVersion) >= *bindRequest.Spec.BackoffLimit))
+// and below the limit the distance to it shrinks by exactly one per persisted failing attempt ([retry-counter-persisted]),
+// so IsFailed() holds after at most BackoffLimit persisted failing reconciles (the induction over reconciles is not mechanised).
 //@   ensures [failed-phase-persisted] err != nil ==> statusPatchFails(old(bindRequest.ResourceVersion)) || storedPhase(bindRequest.ResourceVersion) == "Failed"
 //@   ensures [succeeded-phase-persisted] err == nil ==> statusPatchFails(old(bindRequest.ResourceVersion)) || storedPhase(bindRequest.ResourceVersion) == "Succeeded"
 //@   ensures [attempts-never-decrease] storedAttempts(bindRequest.ResourceVersion) >= old(bindRequest.Status.FailedAttempts)
